@@ -77,13 +77,13 @@ def channel_order(system):
     return out
 
 
-def _tables(obj, system, kind):
-    """Read the engine's propensity tables by channel (internal layout, see module docstring)."""
+def _tables(obj, system, kind, names=("mesh_ar", "mesh_ad")):
+    """Read the engine's per-channel tables (internal layout, see module docstring)."""
     nq2 = 2 * len(system.network.reactions)
     ns = len(system.network.species)
     nc = system.space.size()
-    ar = obj.field("mesh_ar").elems
-    ad = obj.field("mesh_ad").elems
+    ar = obj.field(names[0]).elems
+    ad = obj.field(names[1]).elems
     cont = contacts(system)
     out = {}
     for i in range(nc):
@@ -116,7 +116,7 @@ def gillespie_stage1(rec, netname, spacedesc, chem=None, fields=("state", "k", "
 
     def body(I):
         _assume_inputs(I, st, named_s)
-        I.summarise = {"ReactionProp"}
+        I.summarise = {"ReactionProp", "Poisson"}
         if initialize(I, kind, named_s) != 0:
             raise HarnessError("initialize failed")
         obj = algo(I)
@@ -390,7 +390,7 @@ def tauleap_step(rec, netname, spacedesc, chem=None, fields=("state", "k", "D", 
 
     def body(I):
         _assume_inputs(I, st, named_s)
-        I.summarise = {"ReactionProp"}
+        I.summarise = {"ReactionProp", "Poisson"}
         I.check_lib_pre = False
         if initialize(I, kind, named_s) != 0:
             raise HarnessError("initialize failed")
@@ -415,19 +415,52 @@ def tauleap_step(rec, netname, spacedesc, chem=None, fields=("state", "k", "D", 
             per_path(I, system, before, after, desc)
         if only_per_path:
             continue
-        draws = [e for e in I.events[n_ev:] if e[0] == "poisson"]
-        if len(draws) != len(order):
-            rec.oblig("one Poisson draw per channel", "violated", "%d draws for %d channels" % (len(draws), len(order)), 0, desc)
-            rec.violation("tauleap-draw-count:%s" % netname, "tau-leap made %d Poisson draws for %d channels (%s)" % (len(draws), len(order), desc), {"structure": desc})
-            continue
-        rec.oblig("one Poisson draw per channel", "holds", len(draws), 0, desc)
+        draws = [(k, e) for k, e in enumerate(I.events) if k >= n_ev and e[0] == "poisson"]
+        by_sym = {e[2].get_id(): (k, e) for k, e in draws}
+        tab = _tables(obj, system, kind, ("mesh_nr", "mesh_nd"))
         P = {}
-        for ch, ev in zip(order, draws):
+        used = set()
+        for ch in order:
             spec = react[(ch[1], ch[2], ch[3])] if ch[0] == "R" else diff[(ch[1], ch[2], ch[3])][0]
-            P[ch] = z3.ToReal(ev[2])
+            ent = tab[ch]
+            P[ch] = I.toreal(ent)
+            evs = []
+            if is_sym(ent):
+                stack, seen = [ent], set()
+                while stack:
+                    t_ = stack.pop()
+                    if t_.get_id() in seen:
+                        continue
+                    seen.add(t_.get_id())
+                    if t_.get_id() in by_sym:
+                        evs.append(by_sym[t_.get_id()])
+                    stack.extend(t_.children())
+            if len(evs) > 1:
+                rec.oblig("one Poisson draw per channel", "violated", "%d draws feed channel %s" % (len(evs), ch), 0, desc)
+                rec.violation("tauleap-draw-count:%s" % netname, "tau-leap channel %s is fed by %d Poisson draws (%s)" % (ch, len(evs), desc), {"structure": desc})
+                continue
+            if not evs:
+                # no draw at all: the count must be 0 and the propensity identically 0
+                _prove(rec, I, "channel %s without a draw has propensity*dt == 0 and count 0" % (ch,), z3.And(spec * I.toreal(dt) == 0, I.toreal(ent) == 0), desc,
+                       lambda m, ch=ch: rec.violation("tauleap-missing-draw:%s" % netname, "tau-leap makes no Poisson draw for channel %s although its propensity can be positive (%s)" % (ch, desc),
+                                                      {"structure": desc, "model": str(m)[:400]}))
+                continue
+            k_ev, ev = evs[0]
+            used.add(k_ev)
+            cond = I.event_cond.get(k_ev)
             _prove(rec, I, "Poisson mean of %s == propensity * dt" % (ch,), I.toreal(ev[1]) == spec * I.toreal(dt), desc,
                    lambda m, ch=ch: rec.violation("tauleap-mean:%s:%s" % (netname, ch[0]), "tau-leap Poisson mean of channel %s is not propensity*dt (%s)" % (ch, desc),
                                                   {"structure": desc, "channel": list(ch), "model": str(m)[:500]}))
+            drawn = z3.ToReal(ev[2])
+            _prove(rec, I, "count of %s is the Poisson draw whenever the mean is positive, else 0" % (ch,),
+                   z3.And(z3.Implies(spec * I.toreal(dt) > 0, z3.And(cond if cond is not None else z3.BoolVal(True), I.toreal(ent) == drawn)),
+                          z3.Implies(spec * I.toreal(dt) <= 0, I.toreal(ent) == 0)), desc,
+                   lambda m, ch=ch: rec.violation("tauleap-count:%s" % netname, "tau-leap event count of channel %s is not its Poisson draw (%s)" % (ch, desc),
+                                                  {"structure": desc, "model": str(m)[:400]}))
+        extra_draws = [k for k, e in draws if k not in used]
+        rec.oblig("no Poisson draw outside the channels of the specification", "holds" if not extra_draws else "violated", len(extra_draws), 0, desc)
+        if extra_draws:
+            rec.violation("tauleap-draw-count:%s" % netname, "tau-leap made %d Poisson draws that belong to no channel of the neighbour relation (%s)" % (len(extra_draws), desc), {"structure": desc})
         for s in range(ns):
             for i in range(nc):
                 exp = X(s, i)
@@ -439,7 +472,7 @@ def tauleap_step(rec, netname, spacedesc, chem=None, fields=("state", "k", "D", 
                 _prove(rec, I, "x'[%d,%d] = x + sum over channels of count * change (flagged: unchanged)" % (s, i), I.toreal(after[s * nc + i]) == exp, desc,
                        lambda m, s=s, i=i: rec.violation("tauleap-apply:%s" % netname, "tau-leap step does not move exactly the drawn counts at species %d cell %d (%s)" % (s, i, desc),
                                                          {"structure": desc, "model": str(m)[:500]}))
-        rec.sample({"structure": desc, "poisson_draws": len(draws), "first_mean": str(z3.simplify(I.toreal(draws[0][1])))[:200] if draws else None})
+        rec.sample({"structure": desc, "poisson_draws": len(draws), "first_mean": str(z3.simplify(I.toreal(draws[0][1][1])))[:200] if draws else None})
     if n != 1:
         rec.notes.append("%s: %d paths (expected 1 merged path)" % (desc, n))
 
